@@ -800,7 +800,6 @@ def check_C11(report, tier, seed, replay=None):
 KF19 = {
     "comma": "readback-splits-on-commas",
     "address": "readback-ignores-address",
-    "notsize": "readback-loses-notsize",
 }
 
 
@@ -854,8 +853,6 @@ def check_C19(report, tier, seed, replay=None):
                 classes.add("comma")
             if c[0] == "address":
                 classes.add("address")
-            if c[0] == "notsize":
-                classes.add("notsize")
         for a in acts:
             if any("," in v for v in flat_values(a)):
                 classes.add("comma")
